@@ -178,6 +178,9 @@ structure Sub where
   fail : Nat
   seenAttr : Nat
   seenEv : Nat
+  /-- `resumed_at`: the instant a subscription resumed from the persisted records was re-added;
+  `Instant::MAX` for a subscription accepted in this boot -/
+  resumedAt : Nat := IMAX
 deriving Repr, DecidableEq, Inhabited
 
 /-- `Instant::checked_add(Duration)` -/
@@ -185,7 +188,8 @@ def checkedAdd (t d : Nat) : Option Nat := if t + d ≤ IMAX then some (t + d) e
 
 /-- `is_expired(now)` -/
 def Sub.isExpired (hz : Nat) (s : Sub) (now : Nat) : Bool :=
-  match checkedAdd s.reportedAt (s.maxInt * hz) with
+  let since := if s.reportedAt = IMAX then s.resumedAt else s.reportedAt
+  match checkedAdd since (s.maxInt * hz) with
   | some e => decide (e ≤ now)
   | none => false
 
@@ -407,15 +411,15 @@ moment (being primed or reported on) is not written. -/
 def State.persist (s : State) : State := { s with kv := (s.subs.take s.n).map Sub.toRec }
 
 /-- one iteration of the loop of `load_persist`: `self.add(now, …)`, then
-`rctx.next_reported_at = Instant::MAX; rctx.set_keep()` and the drop of the context
-(`report_complete` with `keep`, the `reporting` slot is empty): the subscription enters the table
-not primed, with the watermarks `add` snapshots.  `None` from `add` (table full) drops the record. -/
-def State.resumeOne (s : State) (r : Rec) (_now evwm : Nat) : State :=
+`rctx.next_reported_at = Instant::MAX; sub.resumed_at = now; rctx.set_keep()` and the drop of the
+context (`report_complete` with `keep`, the `reporting` slot is empty): the subscription enters the
+table not primed, with the watermarks `add` snapshots and the resume instant as its expiry base.  `None` from `add` (table full) drops the record. -/
+def State.resumeOne (s : State) (r : Rec) (now evwm : Nat) : State :=
   if s.count ≥ s.n then s
   else
     let sub : Sub := { id := s.nextSubId, fab := r.fab, peer := r.peer, minInt := r.minInt,
                        maxInt := r.maxInt, reportedAt := IMAX, retryAt := 0, fail := 0,
-                       seenAttr := s.changed.watermark, seenEv := evwm }
+                       seenAttr := s.changed.watermark, seenEv := evwm, resumedAt := now }
     { s with count := s.count + 1, nextSubId := s.nextSubId + 1, subs := s.subs ++ [sub] }
 
 /-- a restart of the device: a fresh `InteractionModelState` (empty table, change ids from 1, every
